@@ -357,8 +357,20 @@ func c16Dispatcher(c *Ctx, r *Report) {
 					}
 					// (value, error) forwarded from the per-function parser called in the returning
 					// block: its own accepting returns
+					inBlock := 0
+					for call := range pf.child {
+						if call.Block() == rs.instr.Block() {
+							inBlock++
+						}
+					}
 					for call, ch := range pf.child {
-						if call.Block() != rs.instr.Block() {
+						// the callee called in the returning block; when the result travels through a
+						// variable to a common exit, every callee frame is looked at
+						if inBlock > 0 && call.Block() != rs.instr.Block() {
+							continue
+						}
+						if ch.fn == nil || ch.fn.Signature.Results().Len() != 2 || !types.Identical(ch.fn.Signature.Results().At(1).Type(), disp.Signature.Results().At(1).Type()) ||
+							!types.AssignableTo(ch.fn.Signature.Results().At(0).Type(), disp.Signature.Results().At(0).Type()) {
 							continue
 						}
 						for _, crs := range ch.returns {
